@@ -118,6 +118,14 @@ FaultOK(r) ==
     /\ (~r.hit => r.outcome = "clean" /\ r.deliveredLen = r.contentLen)
     /\ (r.small /\ ~r.hit => ParseLenient(r.bytes).content = r.delivered)
 
+\* C16: the source is a dependent-block frame from the independent encoder (small ones are logged verbatim):
+\* TLC decodes it itself (ref-conformance of the encoder) and the Reader must have delivered the content
+LinkedOK(r) ==
+    /\ r.outcome = "clean" /\ r.sameAsContent
+    /\ (r.small => LET p == ParseStrict(r.bytes)
+                   IN  p.status = "ok" /\ ~FlgIndep(p.flg) /\ p.content = r.content /\ r.delivered = r.content)
+    /\ (~r.small => r.ref.status = "ok" /\ r.ref.sameContent)
+
 RefOK(r) ==
     LET p == Parse(r.bytes, r.strict)
     IN  /\ p.status = r.status /\ p.content = r.content /\ p.consumed = r.consumed
@@ -133,6 +141,7 @@ RecordOK(r) ==
                              [] Prop = "C06" -> TruncOK(r)
                              [] Prop = "C07" -> SafeOK(r)
                              [] Prop = "C15" -> FaultOK(r)
+                             [] Prop = "C16" -> LinkedOK(r)
                              [] OTHER -> TRUE)
 
 TraceInit == l = 1
